@@ -1,15 +1,25 @@
 #!/bin/bash
-# MANIFEST.setup_cmd: build every harness once (warms the Go build cache) from files on disk only.
+# MANIFEST.setup_cmd: build every registered harness once (warms the Go build cache), from files on disk only.
 set -u
 cd /verif || exit 2
 export GOFLAGS=-mod=mod GOPROXY=off
 mkdir -p build/bin evidence replays
 cp /repo/go.sum go.sum
-python3 lib/mkoverlay.py > build/overlay-setup.json || exit 2
+ids=$(python3 -c "
+import json
+print(' '.join(sorted({c['property_id'].lower() for c in json.load(open('MANIFEST.json'))['checks']})))")
 rc=0
-go build -tags verif -overlay build/overlay-setup.json -o build/bin/ $(ls -d h/*/ | grep -v -f <(ls h/*/INSTRUMENT 2>/dev/null | xargs -r -n1 dirname | sed 's|$|/|') | sed 's|^|./|') || rc=2
-for d in $(ls h/*/INSTRUMENT 2>/dev/null | xargs -r -n1 dirname); do
-  id=$(basename "$d")
-  ./lib/build_inst.sh "$id" || rc=2
+(cd tools/vinst && go build -o /verif/build/bin/vinst .) || rc=2
+for id in $ids; do
+  OV="build/overlay-$id.json"
+  EXTRA=()
+  if [ -f "h/$id/INSTRUMENT" ]; then
+    ./lib/build_inst.sh "$id" || { rc=2; continue; }
+    EXTRA+=("build/inst-$id/map.json")
+  fi
+  python3 lib/mkoverlay.py --out-dir "build/rw-$id" "${EXTRA[@]}" > "$OV" || { rc=2; continue; }
+  TAGS=verif
+  [ -f "h/$id/TAGS" ] && TAGS="verif,$(cat h/$id/TAGS)"
+  go build -tags "$TAGS" -overlay "$OV" -o "build/bin/$id" "./h/$id" || rc=2
 done
 exit $rc
